@@ -28,7 +28,7 @@ from pdfminer.layout import (  # noqa: E402
 )
 
 from ..tlc import MachineryError  # noqa: E402
-from .pdfwriter import Name, simple_doc  # noqa: E402
+from .pdfwriter import Name, Ref, Stream, simple_doc  # noqa: E402
 
 UNIT = 8  # model units per point
 
@@ -63,14 +63,24 @@ class StubFont:
 
 
 _FONT = StubFont()
-_SPACES = [" ", "\t", "　", "\xa0"]
+_SPACES = [" ", "\t", "\u3000", "\xa0", "\n", "\r"]
+# text variants of the direct route: the model's classes are "c" (visible), "s" (white space), "e" (empty string); their
+# representatives vary - 0: one letter / the white-space characters in turn; 1: several characters / every blank a line
+# feed (a glyph whose text is "\n", e.g. by ToUnicode); 2: a ligature-like pair / every blank a carriage return
+VARIANTS = (0, 1, 2)
+PDF_LF = b"~"          # the code the generated font maps to U+000A by its ToUnicode CMap
 
 
-def glyph_text(t, gid, pdf=False):
+def glyph_text(t, gid, pdf=False, variant=0):
     if t == "c":
-        return chr(ord("a") + (gid - 1) % 26)
+        ch = chr(ord("a") + (gid - 1) % 26)
+        if pdf or variant == 0:
+            return ch
+        return (ch + "b" + ch) if variant == 1 else ("f" + ch)
     if t == "s":
-        return " " if pdf else _SPACES[(gid - 1) % len(_SPACES)]
+        if pdf:
+            return "\n" if gid % 2 else " "
+        return _SPACES[(gid - 1) % len(_SPACES)] if variant == 0 else "\n" if variant == 1 else "\r"
     return ""
 
 
@@ -95,13 +105,13 @@ def page_bbox(scale, S=512):
     return (0, 0, pt(S, scale), pt(S, scale))
 
 
-def build_direct(rec, scale, S=512):
+def build_direct(rec, scale, S=512, variant=0):
     """-> (root LTPage, analysed container, chars in content order, all items in page order)"""
     items = []
     chars = []
     for it in rec["page"]:
         if it["k"] == "c":
-            ch = make_char(it["bb"], glyph_text(it["t"], len(chars) + 1), scale)
+            ch = make_char(it["bb"], glyph_text(it["t"], len(chars) + 1, variant=variant), scale)
             chars.append(ch)
             items.append(ch)
         else:
@@ -148,8 +158,8 @@ def la_aliases(p):
     return out
 
 
-def analyze_direct(rec, scale, rev=False, S=512, alias=None):
-    root, cont, chars, items = build_direct(rec, scale, S)
+def analyze_direct(rec, scale, rev=False, S=512, alias=None, variant=0):
+    root, cont, chars, items = build_direct(rec, scale, S, variant)
     la = la_of(rec["p"])
     if alias is not None:
         setattr(la, FIELDS[alias[0]], alias[1])
@@ -241,9 +251,16 @@ def rec_key(rec):
 
 
 # ------------------------------------------------------------------------------------------------ PDF route
+TOUNICODE = (b"/CIDInit /ProcSet findresource begin 12 dict begin begincmap /CMapName /VerifSquare-UCS def /CMapType 2 def\n"
+             b"1 begincodespacerange <00> <FF> endcodespacerange\n1 beginbfchar <7E> <000A> endbfchar\n"
+             b"endcmap CMapName currentdict /CMap defineresource pop end end\n")
+TOUNICODE_OBJ = 900
+
+
 def square_font():
-    """a simple font whose every glyph is the unit square: width 1000, descent 0 (bbox = Tm applied to (0,0,1,1))"""
-    return {"Type": Name("Font"), "Subtype": Name("Type1"), "BaseFont": Name("VerifSquare"),
+    """a simple font whose every glyph is the unit square: width 1000, descent 0 (bbox = Tm applied to (0,0,1,1));
+    its ToUnicode CMap sends the code of "~" to U+000A (a glyph whose text is a line feed)"""
+    return {"ToUnicode": Ref(TOUNICODE_OBJ), "Type": Name("Font"), "Subtype": Name("Type1"), "BaseFont": Name("VerifSquare"),
             "FirstChar": 32, "LastChar": 126, "Widths": [1000] * 95, "Encoding": Name("WinAnsiEncoding"),
             "FontDescriptor": {"Type": Name("FontDescriptor"), "FontName": Name("VerifSquare"), "Flags": 32,
                                "FontBBox": [0, 0, 1000, 1000], "ItalicAngle": 0, "Ascent": 1000, "Descent": 0,
@@ -275,7 +292,7 @@ def content_of(rec, scale):
             if not intext:
                 out.append(b"BT /F1 1 Tf")
                 intext = True
-            t = glyph_text(it["t"], g, pdf=True).encode("ascii")
+            t = glyph_text(it["t"], g, pdf=True).encode("ascii").replace(b"\n", PDF_LF)
             out.append(b"%s 0 0 %s %s %s Tm (%s) Tj" % (num(x1 - x0), num(y1 - y0), num(x0), num(y0), t))
         else:
             if intext:
@@ -290,7 +307,8 @@ def content_of(rec, scale):
 def pdf_of(recs, scale, S=512):
     """one document, one page per arrangement"""
     data, _ = simple_doc([content_of(r, scale) for r in recs], fonts={"F1": square_font()},
-                         mediabox=(0, 0, pt(S, scale), pt(S, scale)))
+                         mediabox=(0, 0, pt(S, scale), pt(S, scale)),
+                         extra_objects={TOUNICODE_OBJ: Stream({}, TOUNICODE)})
     return data
 
 
